@@ -1627,6 +1627,35 @@ def _m_abs(I, v):
     return abs(v)
 
 
+def _anyall(I, is_any, it):
+    """any()/all() over a side-effect-free sequence (bytes, list, tuple) of ints/bools, some of them
+    symbolic: one combined truth value (the caller branches on it once) instead of one fork per
+    element.  Short-circuiting is unobservable for such sequences."""
+    from .sym import sym_and, sym_or
+
+    if isinstance(it, (SymBytes, models.SymByteArray)):
+        seq = list(it.items)
+    elif isinstance(it, (list, tuple, bytes, bytearray)):
+        seq = list(it)
+    else:
+        return None
+    if not any(is_sym(x) for x in seq) or not all(isinstance(x, (bool, int, SymInt, SymBool)) for x in seq):
+        return None
+    return (sym_or if is_any else sym_and)(*[x if isinstance(x, (bool, SymBool)) else (x != 0) for x in seq])
+
+
+@model(any)
+def _m_any(I, it):
+    r = _anyall(I, True, it)
+    return any(I.iterate(it)) if r is None else r
+
+
+@model(all)
+def _m_all(I, it):
+    r = _anyall(I, False, it)
+    return all(I.iterate(it)) if r is None else r
+
+
 def _minmax(I, is_min, args, kw):
     if kw or len(args) < 2 or not any(is_sym(a) for a in args):
         if len(args) == 1 and not kw:
